@@ -427,6 +427,24 @@ def aggr_deletes(text, sig, what):
     return "{ giveUp := %s, afterLoop := %s, missingClose := %s, atEnd := %s }" % (f("giveUp"), f("afterLoop"), f("missingClose"), f("atEnd"))
 
 
+def getkeyword_amp(rf, sf):
+    """does GetKeyword accept `&` as a keyword character?  (it does not: `&SCOPE` can then never be recognised and
+    CreateScopeInstances always leaves through its first error exit — what the model's `ciRecord` does).
+    Also: CreateInstance must return ENTITY_NULL when CreateScopeInstances reports an error."""
+    b = _ws(_strip(_body(rf, r"const\s+char\s*\*\s*GetKeyword\s*\(", "GetKeyword")))
+    m = re.search(r"if\(!\(\(isupper\(c\)\)\|\|(.*?)\)\)\{", b)
+    if not m:
+        raise ValueError("GetKeyword: the test for valid keyword characters was not found")
+    amp = "c=='&'" in m.group(1)
+    cs = _ws(_strip(_body(sf, r"Severity\s+STEPfile::CreateScopeInstances\s*\(", "CreateScopeInstances")))
+    if not re.search(r"keywd=GetKeyword\(in,\"[^\"]*\",_error\);if\(strncmp\(const_cast<char\*>\(keywd\.c_str\(\)\),\"&SCOPE\",6\)\)\{SkipInstance\(in,tmpbuf\);.*?returnSEVERITY_INPUT_ERROR;\}", b + cs):
+        raise ValueError("CreateScopeInstances: the `&SCOPE` test with its error exit (SkipInstance; return SEVERITY_INPUT_ERROR) was not found")
+    ci = _ws(_strip(_body(sf, r"SDAI_Application_instance\s*\*\s*STEPfile::CreateInstance\s*\(", "CreateInstance")))
+    if not re.search(r"if\(c=='&'\)\{(?://[^\n]*)?Severitys=CreateScopeInstances\(in,&scopelist\);if\(s<SEVERITY_WARNING\)\{returnENTITY_NULL;\}", ci):
+        raise ValueError("CreateInstance: `if( c == '&' ) { s = CreateScopeInstances(…); if( s < SEVERITY_WARNING ) return ENTITY_NULL; …` not found")
+    return amp
+
+
 def skip_comments(rf):
     """does SkipInstance have the `case '/':` that steps over a comment (peek '*', putback, ReadComment; else keep the '/')?"""
     b = _ws(_strip(_body(rf, r"Severity\s+SkipInstance\s*\(", "SkipInstance")))
@@ -662,6 +680,7 @@ def extract(repo):
     sch_cap = schformat(rd("src/clstepcore/Registry.cc"), env)
     nms_exact = nms_copy_exact(sc)
     skipcm = skip_comments(rf)
+    gk_amp = getkeyword_amp(rf, sf)
     ad = [aggr_deletes(rd(f), sig, w) for f, sig, w in [
         ("src/clstepcore/STEPaggregate.cc", r"Severity\s+STEPaggregate::ReadValue\s*\(", "STEPaggregate::ReadValue"),
         ("src/clstepcore/STEPaggrEntity.cc", r"Severity\s+EntityAggregate::ReadValue\s*\(", "EntityAggregate::ReadValue"),
@@ -735,6 +754,10 @@ def strEndsWithShape : EndsWithShape := {ews}
 def aggrDeletes : DelCfg := {ad[0]}
 def entityAggrDeletes : DelCfg := {ad[1]}
 def selectAggrDeletes : DelCfg := {ad[2]}
+
+/-- `GetKeyword` accepts `&` as a keyword character (false: `&SCOPE` is never recognised, CreateScopeInstances always takes
+its first error exit, CreateInstance returns ENTITY_NULL) -/
+def getKeywordAcceptsAmp : Bool := {b(gk_amp)}
 
 /-- `SkipInstance` has the `case '/':` that steps over a comment -/
 def skipInstanceSkipsComments : Bool := {b(skipcm)}
